@@ -474,3 +474,59 @@ def source_defines_order_predicate_name(job: dict, cres: dict, v: dict) -> bool:
     """the source itself defines a predicate with one of the generated __chain/__min/__max/__next names with an arity
     that differs from the one the name generator reserved (the arity of the domain predicate +1/+2)"""
     return bool(re.search(r"(?m)^__(chain|min|max|next)_[0-9_]*(?:_?(?:max|min)_)?__dom_[A-Za-z0-9_]*\(", job["prog"]))
+
+
+@matcher("duplication_condition_global_lost")
+def duplication_condition_global_lost(job: dict, cres: dict, v: dict) -> bool:
+    """decided by re-executing the one failing configuration twice in this process with an observer on
+    LiteralCollector: (1) the run really replaces a BODY subset in which a variable is local to a conditional literal
+    or aggregate of the subset but global in the rule (bound by a literal outside the subset); (2) when exactly such
+    subsets are withheld from the candidate table, no violation attributed to duplication is left."""
+    import ngo.literal_duplication as ld
+    from ngo.utils.ast import collect_ast, collect_binding_information_body, global_vars_inside_body
+
+    from vt import run
+
+    def lost(subset, body) -> bool:
+        bound = collect_binding_information_body(subset)[0]
+        local = {x for lit in subset for x in collect_ast(lit, "Variable") if x.name != "_"} - bound
+        return bool(local & global_vars_inside_body(list(body)))
+
+    single = dict(job, checks=["semantic"])
+    single["configs"] = [c for c in job["configs"]
+                         if c["traits"] == cres["traits"] and c["inp"] == cres["inp"] and c["out"] == cres["out"]][:1]
+    if not single["configs"]:
+        return False
+    cls = ld.LiteralCollector
+    orig_rebuild, orig_add = cls.rebuild, cls._add_occurences_from_body
+    hit: list = []
+
+    def rebuild(self, rb, name, variables):
+        if rb.sub_ast is None and lost(rb.original_literals, self.prg[rb.ruleid].body):
+            hit.append(rb.ruleid)
+        return orig_rebuild(self, rb, name, variables)
+
+    def add(self, body, index):
+        body = list(body)
+        orig_add(self, body, index)
+        for key in list(self.occurences):
+            keep = [rb for rb in self.occurences[key]
+                    if not (rb.ruleid == index and rb.sub_ast is None and lost(rb.original_literals, body))]
+            if keep:
+                self.occurences[key] = keep
+            else:
+                del self.occurences[key]
+
+    try:
+        cls.rebuild = rebuild
+        run.run_job(single)
+        cls.rebuild = orig_rebuild
+        if not hit:
+            return False
+        cls._add_occurences_from_body = add
+        res = run.run_job(single)
+    finally:
+        cls.rebuild, cls._add_occurences_from_body = orig_rebuild, orig_add
+    if res.get("rejected") or "harness_error" in res:
+        return False
+    return not any(x.get("culprit") == "duplication" for c in res["configs"] for x in c["violations"])
